@@ -65,5 +65,10 @@ func run(c *core.Ctx) {
 	if st.FramesOpenedByRef == 0 || st.RefFramesAccepted == 0 {
 		c.Broken("vacuous run: no frame was opened by the reference decryptor / accepted from the reference sealer")
 	}
+	if c.Thorough() {
+		chanreplay.ValidateRepoTestTraces(c, "./stream/", "./message/")
+	} else {
+		chanreplay.ValidateRepoTestTraces(c, "./stream/")
+	}
 	c.Set("rule", "behaviours = scripted histories (Gen_SecureChannel mode script: every combination of stream state, cleartext prefix 0..2 per direction, start counters {0, limit-2} per direction, 3 scripts) plus seeded TLC simulation of the free interleaving; each replayed with the real sender (every emitted frame opened by the reference decryptor with the IV/counter/AAD predicted by the model) and with the reference sealer feeding the real receiver; distinct = hash of behaviour+variant")
 }
